@@ -19,12 +19,13 @@ CONSTANTS Variants,     \* "R2-RC4-40" "R3-RC4-56" "R3-RC4-128" "R4-RC4-128" "R4
           Places,       \* where the string / stream lives
           LenClasses,   \* "empty" "short" "block" "long"
           IdClasses,    \* "low" "gen" "high"   -> (id, gen)
+          Roots,        \* where the catalog and the page tree live: "object" | "objstm" (inside an encrypted object stream)
           Dev
 
-VARIABLES variant, pwrel, encMeta, place, len, idc, kind,
+VARIABLES variant, pwrel, encMeta, place, len, idc, kind, root,
           phase, opened, answer
 
-vars == <<variant, pwrel, encMeta, place, len, idc, kind, phase, opened, answer>>
+vars == <<variant, pwrel, encMeta, place, len, idc, kind, root, phase, opened, answer>>
 
 Method(v) == CASE v \in {"R2-RC4-40", "R3-RC4-56", "R3-RC4-128", "R4-RC4-128"} -> "RC4"
                [] v = "R4-AESV2" -> "AESV2" [] OTHER -> "AESV3"
@@ -47,11 +48,16 @@ Stored(pl, v, idgen, em) == IF Exempt(pl, em) \/ ~Individually(pl) THEN PlainSto
 
 \* ---------------------------------------------------------------- Mech
 \* Decoder::from_password: user check first, then owner unwrap + user check
+\* After the password check the loader looks into the catalog (for the document-level /Metadata reference, which is exempt
+\* when EncryptMetadata is false).  A catalog stored in an object stream can only be read through the decoder: the decoder
+\* has to be installed before that lookup.
 Open ==
   /\ phase = "open"
-  /\ opened' = IF pwrel \in {"user", "owner", "empty-user"} THEN "ok" ELSE "err-password"
+  /\ opened' = IF pwrel \in {"user", "owner", "empty-user"}
+                THEN (IF root = "objstm" /\ "catalog_read_before_decoder" \in Dev THEN "err-open" ELSE "ok")
+                ELSE "err-password"
   /\ phase' = "read"
-  /\ UNCHANGED <<variant, pwrel, encMeta, place, len, idc, kind, answer>>
+  /\ UNCHANGED <<variant, pwrel, encMeta, place, len, idc, kind, root, answer>>
 
 \* key the library decrypts with
 LibKey(v, idgen) == IF Method(v) = "AESV3" /\ "aesv3_key_truncated" \in Dev THEN <<"truncated">> ELSE ObjKey(v, idgen)
@@ -75,7 +81,7 @@ Read ==
                          THEN (IF st.m = "none" THEN "garbage" ELSE Dec(Method(variant), LibKey(variant, IdOf(idc)), st))
                          ELSE (IF st.m = "none" THEN "plain" ELSE "garbage")
   /\ phase' = "done"
-  /\ UNCHANGED <<variant, pwrel, encMeta, place, len, idc, kind, opened>>
+  /\ UNCHANGED <<variant, pwrel, encMeta, place, len, idc, kind, root, opened>>
 
 KindOf(pl) == IF pl \in {"stream", "metadata-stream", "xref-stream"} THEN "stream" ELSE "string"
 
@@ -83,6 +89,7 @@ Init ==
   /\ variant \in Variants /\ pwrel \in PwRelations /\ encMeta \in BOOLEAN
   /\ place \in Places /\ len \in LenClasses /\ idc \in IdClasses
   /\ kind = KindOf(place)
+  /\ root \in Roots /\ (root = "objstm" => variant # "R2-RC4-40" /\ place \notin {"encrypt-dict-direct"})
   /\ (place \in {"metadata-stream", "encrypt-dict-indirect", "encrypt-dict-direct", "xref-stream", "string-in-objstm"} => idc = "low")
   /\ (~encMeta => variant \notin {"R2-RC4-40", "R3-RC4-56", "R3-RC4-128"})           \* EncryptMetadata exists from revision 4 on
   /\ (place \in {"string-in-objstm", "xref-stream"} => variant \notin {"R2-RC4-40"}) \* object streams need PDF 1.5
